@@ -209,6 +209,14 @@ func c18EnumUnit(c *mon.Ctx, r *mon.Rng, per int) {
 		lits := gen.EnumList(r, 7)
 		layout := mon.Pick(r, gen.EnumLayouts)
 		et := gen.EnumLayout(r, lits, layout)
+		if r.Chance(1, 5) {
+			// a comment (or blanks) after the closing bracket belongs to the rule text as well;
+			// whether it becomes an entry of its own is not decided by the statement
+			et.Text += mon.Pick(r, []string{" // values", "// glued", "\n/* the\n   end */", " /* c */", "\n// last line", "  \n", "\t// x\n"})
+			et.HasComments = true
+			et.CommentsDecided = false
+			c.Count("enum rules with a comment after the closing bracket", 1)
+		}
 		c.Count("enum rule layout: "+layout, 1)
 		for _, l := range lits {
 			c.Count("enum member kind: "+c18KindOf(l), 1)
